@@ -18,6 +18,14 @@ from ..group import IndentationGroup
 from . import rater
 
 
+#: columns stored for each rated curve
+H5_COLUMNS = ["fit", "fit range", "force", "fit residuals", "tip position",
+              "segment"]
+#: attributes every complete rating entry has
+H5_ATTRS_REQUIRED = ["data enum", "data hash", "user name", "user rate",
+                     "user comment"]
+
+
 class RateManager:
     def __init__(self, path, verbose=0):
         """Manage user-defined rates"""
@@ -232,6 +240,10 @@ def load_hdf5(path, meta_only=False):
             dataset_dict = {}
             for dkey in h5["data"]:
                 dset = h5["data"][dkey]
+                if "path" not in dset.attrs:
+                    # incomplete entry (a previous save failed part-way)
+                    warnings.warn(f"Ignoring incomplete data '{dkey}'!")
+                    continue
                 dbin = dset[...]
                 name = dkey + "_" + pathlib.Path(dset.attrs["path"]).name
                 dpath = pathlib.Path(tdir) / name
@@ -240,10 +252,16 @@ def load_hdf5(path, meta_only=False):
         # load individual curves
         for akey in h5["analysis"]:
             h5gr = h5["analysis"][akey]
-            if "fit" not in h5gr:
+            attrs = h5gr.attrs
+            # A save that failed part-way leaves an incomplete group
+            # behind; it must not prevent reading the other ratings.
+            complete = (all(col in h5gr for col in H5_COLUMNS)
+                        and all(key in attrs for key in H5_ATTRS_REQUIRED)
+                        and (meta_only
+                             or attrs["data hash"] in dataset_dict))
+            if not complete:
                 warnings.warn(f"Ignoring incomplete '{akey}'!")
                 continue
-            attrs = h5gr.attrs
             if not meta_only:
                 indent = dataset_dict[attrs["data hash"]].get_enum(
                     attrs["data enum"])
@@ -388,7 +406,8 @@ def hdf5_rated(h5path, indent):
                 ana = h5["analysis"]
                 dhash = hash_file(indent.path)
                 idd = "{}_{}".format(dhash, indent.enum)
-                if idd in ana:
+                if (idd in ana and "user rate" in ana[idd].attrs
+                        and "user comment" in ana[idd].attrs):
                     is_rated = True
                     rating = ana[idd].attrs["user rate"]
                     comment = ana[idd].attrs["user comment"]
